@@ -177,7 +177,10 @@ def check_labelled_poly(algo, O, S, leafmap, leafsyn, costs, policy, session=Non
     else:
         # ancestors already carry names of the auto-label form (O#/S#), as after label_internal() or a pass through the CLI
         inp, onode, snode = A.build_input(O, S, leafmap, costs, leafsyn, unordered=not is_ord,
-                                          onames={v: (f"O{v}" if O.children[v] else f"o{v}") for v in range(O.n)},
+                                          # (object leaves: <another species leaf>_<id> - the explicit assignment must win
+                                          # over anything read off the names when the input passes through its dictionary form)
+                                          onames={v: (f"O{v}" if O.children[v] else
+                                                      f"s{S.leaves[(S.leaves.index(leafmap[v]) + 1) % len(S.leaves)]}_{v}") for v in range(O.n)},
                                           snames={v: (f"S{v}" if S.children[v] else f"s{v}") for v in range(S.n)})
     oname = {onode[v].name: v for v in O.leaves}
     sname = {snode[v].name: v for v in S.leaves}
